@@ -34,7 +34,8 @@ ASSUMPTIONS = [
 ]
 REQUIRED_MONITORS = ["rows", "emo_compared", "dipole_compared", "hf_compared", "translation_pairs", "rows_uhf",
                      "rows_ion", "rows_excited", "batchcell_activemix", "batchcell_chargemix", "rows_ground_in_mixed_active_batch",
-                     "gap_vs_alone_compared"]
+                     "gap_vs_alone_compared", "rows_dispersion_nonzero", "xl_calls", "xl_calls_krylov",
+                     "xl_rows_dm_differs_from_P0"]
 CASE_TIMEOUT = 600.0
 BUDGET_S = {"quick": float(os.environ.get("VERIF_BUDGET_QUICK", 200)), "thorough": float(os.environ.get("VERIF_BUDGET_THOROUGH", 1500))}
 
@@ -103,6 +104,106 @@ def _batch_cells(g, tier):
     return out
 
 
+def _disp_and_xl_cells(g, tier):
+    """Named cells (both tiers).
+
+    dispcell: AM1 with "dispersion": True (AM1-FS1 pair term, acts only beyond ~2.2-3.2 A) on benzene, dimers and a
+    padded batch of both; Etot = Eelec + Enuc + E_disp (E_disp recomputed from the published formula) and
+    Hf = Etot - sum Eiso + sum eheat with the RETURNED Etot.
+    xlcell: the XL-BOMD route Electronic_Structure.forward(mol, P0=..., dm_prop="XL-BOMD", xl_bomd_params=...) with a
+    NON-self-consistent auxiliary density P0 (converged density of a neighbouring geometry, optionally plus symmetric
+    noise), plain and Krylov (max_rank 1-3, T_el 300-1500 K); neutral, ion, zero-padded batch.  Judged: every bundle
+    clause that holds there by construction (Etot = Eelec + Enuc with the XL functional's Eelec, Enuc pair sum, Eiso, Hf,
+    e_mo ascending, gap definition, charges from the REPORTED dm, charge sum, dipole from the REPORTED q and dm);
+    e_mo-vs-eig(F[dm]) is NOT asserted (e_mo are eigenvalues of F[P0] on this route)."""
+    quick = tier == "quick"
+    out = []
+    disp = [[("C6H6", None, None)], [("CH4", "CH4", 3.8)], [("H2O", "H2O", 3.2)],
+            [("CH4", "H2O", 4.5), ("C6H6", None, None), ("H2O", "H2O", 4.2)]]
+    if not quick:
+        disp += [[("CH4", "CH4", 3.2)], [("CH4", "CH4", 5.0)], [("H2O", "H2O", 4.8)], [("C2H4", "C2H4", 3.8)],
+                 [("NH3", "H2O", 3.5)], [("C2H6", None, None)], [("C6H6", "CH4", 4.5)], [("HCOOH", "HCOOH", 4.0)]]
+    for dm in disp:
+        for mode in (["autodiff"] if quick else ["autodiff", "analytical"]):
+            out.append({"kind": "dispcell", "dimers": dm, "method": "AM1", "conv": [2], "sp2": None, "uhf": False,
+                        "modes": [mode], "orient": {"kind": "generic"}, "dispersion": True,
+                        "layout": "single" if len(dm) == 1 else "padded", "seed": int(g.integers(0, 2**31)), "eps": 1e-10})
+    xl = [(["CH2O"], [0], "AM1"), (["CH2O"], [2], "AM1"), (["CH2O", "H2O"], [0, 0], "AM1"), (["NH4+"], [1], "PM3"),
+          (["OH-", "CH4"], [-1, 0], "MNDO"), (["HCN"], [0], "PM6_SP")]
+    if not quick:
+        xl += [(["CH3OH", "H2O", "NH3"], [0, 0, 0], "PM3"), (["H3O+", "HCN"], [1, 0], "AM1"), (["C2H4"], [0], "MNDO"),
+               (["HCOO-"], [-1], "AM1"), (["SO2"], [0], "PM3"), (["CH3F", "HF"], [0, 0], "PM6_SP")]
+    kry = [None, {"max_rank": 3, "err_threshold": 0.0, "T_el": 1500.0}, {"max_rank": 1, "err_threshold": 0.0, "T_el": 300.0},
+           {"max_rank": 2, "err_threshold": 0.0, "T_el": 800.0}]
+    for k, (names, charges, method) in enumerate(xl):
+        variants = [(kry[0], "neighbour"), (kry[1 + k % 3], "neighbour")] if quick else \
+            [(kp, p0) for kp in kry for p0 in ("neighbour", "noise")]
+        for kp, p0 in variants:
+            out.append({"kind": "xlcell", "mols": names, "charges": charges, "method": method, "conv": [1], "sp2": None,
+                        "uhf": False, "modes": ["autodiff"], "layout": "single" if len(names) == 1 else "padded",
+                        "orient": {"kind": "generic"}, "xl": kp, "p0": p0, "seed": int(g.integers(0, 2**31)),
+                        "eps": 1e-10})
+    return out
+
+
+def _build_xlcell(case):
+    g = np.random.default_rng(case["seed"])
+    rows = []
+    for name, q in zip(case["mols"], case["charges"]):
+        Z, X0, _, _ = gen.molecule(name)
+        X = gen.distort(X0, g, sigma=0.05)
+        X = X @ gen.generic_rotation(X, g).T
+        rows.append((Z, X + g.uniform(-3, 3, 3), q, 1))
+    return rows
+
+
+def run_xlcell(case):
+    """SCF at x -> converged D0; XL-BOMD evaluation at a displaced geometry with P0 = D0 (+ noise)."""
+    import torch
+    from vlib import obs14, run
+    rows = _build_xlcell(case)
+    S, C, Q, M = c01._batch_arrays(case, rows)
+    single = len(rows) == 1
+    qarg = Q[0] if single else np.asarray(Q, float)
+    g = np.random.default_rng(case["seed"] + 3)
+    sett = _settings(case, case["eps"])
+    mask = (np.asarray(S) > 0)[..., None]
+    with run.quiet():
+        mol0, es0, _ = run.build(S[0] if single else S, C[0] if single else C, sett, qarg, 1)
+        es0(mol0)
+    if bool(np.asarray(run.npy(es0.notconverged)).any()):
+        return {"ineligible": "starting SCF not converged", "monitors": {"calls": 1}}
+    P0 = mol0.dm.clone()
+    C1 = np.asarray(C, float) + g.normal(0, 0.02, np.asarray(C).shape) * mask
+    if case["p0"] == "noise":
+        # symmetric perturbation confined to orbitals that exist (s of H, sp of heavy atoms) of each molecule
+        nz = torch.zeros_like(P0)
+        for b, (Z, _, _, _) in enumerate(rows):
+            idx = obs14._orbital_index(list(Z))
+            a = torch.as_tensor(g.normal(0, 2e-3, (len(idx), len(idx))))
+            ii = torch.as_tensor(idx)
+            nz[b][ii[:, None], ii[None, :]] = 0.5 * (a + a.T)
+        P0 = P0 + nz
+    with run.quiet():
+        mol, es, sett2 = run.build(S[0] if single else S, C1[0] if single else C1, sett, qarg, 1)
+        es(mol, P0=P0, dm_prop="XL-BOMD", xl_bomd_params=dict(case["xl"] or {}))
+    b = obs14.bundle(mol, es, sett2, Q, M, do_fock=False)
+    dmax = float((mol.dm - P0).abs().max())
+    mon = dict(b["monitors"])
+    mon.update({"calls": 2, "xl_calls": 1, "xl_calls_krylov": int(case["xl"] is not None),
+                "xl_rows_dm_differs_from_P0": int(dmax > 1e-6) * len(rows)})
+    for v in b["violations"]:
+        v["clause"] = "xl-path/" + v["clause"]
+        v["detail"]["xl_bomd_params"] = case["xl"]
+        v["detail"]["max_abs_dm_minus_P0"] = dmax
+    margins = {"xl/" + k: v for k, v in b["margins"].items()}
+    cells = ["xlcell/%s/%s/%s/%s/q%s" % (case["method"], "krylov-r%d-T%g" % (case["xl"]["max_rank"], case["xl"]["T_el"]) if case["xl"]
+                                        else "plain", case["p0"], case["layout"], ",".join("%+d" % q for q in case["charges"]))]
+    return {"nontrivial": dmax > 1e-6, "violations": b["violations"], "margins": margins, "monitors": mon, "cells": cells,
+            "obs": {"max_abs_dm_minus_P0": dmax, "Etot": [float(x) for x in run.npy(mol.Etot).reshape(-1)],
+                    "dipole": run.npy(mol.dipole).tolist(), "worst": margins}}
+
+
 def _build_batchcell(case):
     g = np.random.default_rng(case["seed"])
     Z, X0, _, _ = gen.molecule(case["mol"])
@@ -133,7 +234,7 @@ def gen_cases(tier, seed):
                 c["modes"] = ["autodiff"]
                 cases.append(c)
     cases += _element_cases(g, tier)
-    named = _batch_cells(g, tier)
+    named = _batch_cells(g, tier) + _disp_and_xl_cells(g, tier)
     for c in named:
         c["tier"] = tier
     for i, c in enumerate(cases):
@@ -205,7 +306,13 @@ def classify(v, case, repeat_index):
 def run_case(case):
     from vlib import obs14, run
     import torch
-    rows, check = _build_batchcell(case) if case["kind"] == "batchcell" else c01.build_rows(case)
+    if case["kind"] == "xlcell":
+        return run_xlcell(case)
+    if case["kind"] == "dispcell":
+        rows, check = c01.build_rows(dict(case, kind="dimer"))
+        check = list(range(len(rows)))
+    else:
+        rows, check = _build_batchcell(case) if case["kind"] == "batchcell" else c01.build_rows(case)
     S, C, Q, M = c01._batch_arrays(case, rows)
     single = len(rows) == 1
     qarg = Q[0] if single else np.asarray(Q, float)
@@ -351,6 +458,8 @@ def run_case(case):
     state = "S0" if not exc else "%s-S%d/%s" % (exc["method"], exc["active"], case["modes"][0])
     cells.append("/".join([case["method"], spin, state, "conv" + "-".join(str(c) for c in case["conv"]),
                            "sp2" if case.get("sp2") else "diag", case["layout"], "eps%g" % case["eps"]]))
+    if case["kind"] == "dispcell":
+        cells.append("dispcell/%s/%s" % (case["modes"][0], "+".join("%s-%s@%s" % d if d[1] else d[0] for d in case["dimers"])))
     if case["kind"] == "batchcell":
         cells.append("batchcell/%s/%s/%s/%s" % (case["cell"], case["method"], case.get("call"),
                                                 case.get("pattern") or ("uhf" if case.get("uhf") else "rhf")
